@@ -524,6 +524,59 @@ func c15InformerFacts(e *ext, get func(string) *ast.FuncDecl) {
 	} else {
 		e.fail("NewQuotaInformer not found")
 	}
+	// toElasticQuota: the cases of its type switch, and what a tombstone may hold
+	cases, tomb := []string{}, []string{}
+	if fd := e.funcDecl(d, "", "toElasticQuota"); fd != nil && fd.Body != nil {
+		ast.Inspect(fd.Body, func(n ast.Node) bool {
+			cc, ok := n.(*ast.CaseClause)
+			if !ok {
+				return true
+			}
+			for _, x := range cc.List {
+				t := c15Src(e, x)
+				cases = append(cases, t)
+				if strings.HasSuffix(t, "DeletedFinalStateUnknown") {
+					ast.Inspect(cc, func(m ast.Node) bool {
+						if ta, ok := m.(*ast.TypeAssertExpr); ok && ta.Type != nil {
+							tomb = append(tomb, c15Src(e, ta.Type))
+						}
+						return true
+					})
+				}
+			}
+			return true
+		})
+	} else {
+		e.fail("toElasticQuota not found")
+	}
+	fmt.Fprintf(&e.out, "def toQuotaCases : List String := %s\n", c15List(cases))
+	fmt.Fprintf(&e.out, "def toQuotaTombstoneHolds : List String := %s\n", c15List(tomb))
+	// koord-manager: is the ElasticQuota type (apis/thirdparty/scheduler-plugins/.../scheduling/v1alpha1) added to client-go's scheme.Scheme?
+	inClientGo := false
+	alias := ""
+	for _, f := range e.dir("cmd/koord-manager/options") {
+		for _, im := range f.Imports {
+			if strings.HasSuffix(strings.Trim(im.Path.Value, "\""), "thirdparty/scheduler-plugins/pkg/apis/scheduling/v1alpha1") {
+				alias = "v1alpha1"
+				if im.Name != nil {
+					alias = im.Name.Name
+				}
+			}
+		}
+		ast.Inspect(f, func(n ast.Node) bool {
+			c, ok := n.(*ast.CallExpr)
+			if !ok || len(c.Args) != 1 {
+				return true
+			}
+			if sel, ok := c.Fun.(*ast.SelectorExpr); ok && sel.Sel.Name == "AddToScheme" {
+				if id, ok := sel.X.(*ast.Ident); ok && alias != "" && id.Name == alias && c15Src(e, c.Args[0]) == "clientgoscheme.Scheme" {
+					inClientGo = true
+				}
+			}
+			return true
+		})
+	}
+	fmt.Fprintf(&e.out, "def elasticQuotaInClientGoScheme : Bool := %v\n", inClientGo)
 	fmt.Fprintf(&e.out, "def informerRegistration : String := %s\n", leanStr(call))
 	fmt.Fprintf(&e.out, "def informerHandlerType : String := %s\n", leanStr(typ))
 	fmt.Fprintf(&e.out, "def informerHandlers : List (String × String) := %s\n", c15Pairs(funcs))
